@@ -1,7 +1,7 @@
 #!/bin/bash
 # build.sh [tag]  -- regenerates the driver from $MW_REPO (default /repo) and builds protomon offline
 set -e
-V=/verif
+V="$(cd "$(dirname "$0")/.." && pwd)"
 REPO=${MW_REPO:-/repo}
 TAG=proto${1:-}
 P=$V/target/$TAG/proj
